@@ -385,6 +385,8 @@ def manifest_read(ctx) -> None:
 
 
 def run(ctx) -> None:
+    # nothing is computed from a loop variable after its loop ran to completion (it would be the last element's value)
+    shared.r_staleloop(ctx, ctx.prog.functions([m for m in ctx.prog.modules if m.startswith(('forml.io.asset', 'forml.project'))]))
     from . import C08
     manifest_read(ctx)
 
